@@ -236,7 +236,12 @@ def eval_case(desc, ctx):
     how = desc.get("obs", "dict")
     cur = observe(st, how)
     removed, nontriv = False, False
+    other = None
     for i, op in enumerate(desc["ops"]):
+        if i == len(desc["ops"]) // 2 and len(desc["ops"]) >= 2:
+            # a second, unrelated State comes to life in the same process (another simulation side by side)
+            other = make_state()
+            other.append(X=np.array([1.0, 2.0]), Y=1.0, Z=1.0, weight=np.array([0.5, 0.25]))
         ints += enc_op(op, cur)
         before = len(cur["pid"])
         status = apply_real(st, op)
@@ -253,6 +258,10 @@ def eval_case(desc, ctx):
                 oracle = f"after op {i} {op}: {msg}"
             if op[0] == "append_invalid" and status != "ValueError":
                 oracle = f"after op {i}: invalid argument name accepted"
+    if other is not None and oracle is None:
+        other.append(X=3.0, Y=1.0, Z=1.0, weight=1.0)
+        if [int(q) for q in other.variables["pid"]] != [0, 1, 2] or int(other.npid) != 3:
+            oracle = f"a second State in the same process: pids {[int(q) for q in other.variables['pid']]}, npid {int(other.npid)} after releasing 2 + 1 particles"
     return {"ints": ints, "oracle": oracle, "nontrivial": (str(desc["ops"]) if nontriv else None),
             "kind": "ops-len-%d" % min(len(desc["ops"]) // 5 * 5, 50), "observed": cur}
 
